@@ -1,7 +1,7 @@
 """C11 - runs are deterministic and independent of process history.
 
 Search over run histories issued through the programmatic entry point in ONE
-process: every sequence of <=2 (thorough <=3) runs from an alphabet of 18 run
+process: every sequence of <=2 (thorough <=3) runs from an alphabet of 19 run
 descriptors (successful and failing) is executed in a fresh child process;
 each run's PQR bytes must equal the bytes the same run produces alone in a
 fresh process.  After every run a structural fingerprint of pdb2pqr's
@@ -20,7 +20,7 @@ from .. import build, engine, pipeline
 PROPERTY = "C11"
 LEVEL = "model_checking"
 RULE = (
-    "all histories of length <=2 (thorough <=3) over an 18-run alphabet, each "
+    "all histories of length <=2 (thorough <=3) over a 19-run alphabet, each "
     "in its own fresh process, plus every run alone under hash seeds 0,1,2 "
     "and a seed-derived one; states = distinct process-state fingerprints, "
     "transitions = distinct (fingerprint, run, fingerprint') edges; "
@@ -35,15 +35,16 @@ ASSUMPTIONS = [
     "process with PYTHONHASHSEED=0",
 ]
 BOUND = {
-    "quick": "18 single runs x 4 hash seeds; all 324 histories of length 2; 54 interleaved repetition histories of length 11-13 (every run 6-7 times with the others in between)",
-    "thorough": "quick + all 5832 histories of length 3 + 8 hash seeds",
+    "quick": "19 single runs x 4 hash seeds; all 361 histories of length 2; 57 interleaved repetition histories of length 11-13 (every run 6-7 times with the others in between)",
+    "thorough": "quick + all 6859 histories of length 3 + 8 hash seeds",
 }
 
 ETHANOL = (engine.REPO / "tests/data/ethanol.mol2")
 RUNS = ["pep_amber", "pep_parse_opts", "strand_charmm", "titrated",
         "ligand", "clean", "fail_parse", "fail_charge", "userff_ok",
         "repair", "bare_model", "two_models", "fail_gap", "cif_models",
-        "cif_layout2", "propka_a", "propka_b", "c2_symmetric"]
+        "cif_layout2", "propka_a", "propka_b", "c2_symmetric",
+        "flip_ends"]
 
 
 def execute(rid):
@@ -147,6 +148,13 @@ def execute(rid):
             models.append(m)
         return pipeline.run(c10.cif_text(models), ["--ff=AMBER"],
                             input_name="in.cif"), meta
+    if rid == "flip_ends":
+        # flippable residues at both chain ends (the terminal variants of
+        # the flip set-up), two chains
+        a = build.build_peptide(["GLN", "ALA", "HIS", "ASN"], chain="A")
+        b = build.build_peptide(["ASN", "SER", "HIS"], chain="B", start=11,
+                                origin=(0.0, 0.0, 22.0))
+        return pipeline.run(build.pdb_text(a + b), ["--ff=AMBER"]), meta
     if rid == "cif_layout2":
         # a second mmCIF file whose atom_site loop is laid out differently
         # (item order, *_esd items) from the first one's
